@@ -458,3 +458,69 @@ def leaf_cut(cfg, classify):
 
 def reach_without(cfg, src, cut):
     return cfg.reachable(src, edge_ok=lambda a, b_, label: not (a.id in cut and label == cut[a.id]))
+
+
+def sym_expr(fi, expr, at, depth=6):
+    """`expr` with the local names it reads replaced by their definitions, where that is a faithful description of the value at
+    cfg node `at`: the name has exactly one reaching definition, the defining expression contains no call, and - for values
+    that read attributes - no statement of the function stores one of those attributes on a path from the definition to `at`.
+    Two spellings of one computation through temporaries get the same text; a name bound to a call result (t0 = self.clock())
+    stays a name."""
+    du = defuse_of(fi)
+    cfg = du.cfg
+    at_id = at.id if hasattr(at, "id") else at
+
+    def attr_stores():
+        out = []
+        for n in cfg.nodes:
+            if n.ast is None or n.kind not in ("stmt", "for", "with"):
+                continue
+            for x in ast.walk(n.ast):
+                if isinstance(x, ast.Attribute) and isinstance(x.ctx, (ast.Store, ast.Del)):
+                    out.append((n.id, x.attr))
+        return out
+    stores = None
+
+    def clobbered(def_id, value):
+        nonlocal stores
+        attrs = {x.attr for x in ast.walk(value) if isinstance(x, ast.Attribute)}
+        if not attrs:
+            return False
+        if stores is None:
+            stores = attr_stores()
+        from_def = cfg.reachable(def_id)
+        for (sid, a) in stores:
+            if a in attrs and sid in from_def and sid != def_id and at_id in cfg.reachable(sid):
+                return True
+        return False
+
+    def rec(e, node_id, d):
+        if isinstance(e, ast.Name) and isinstance(e.ctx, ast.Load) and d > 0:
+            defs = du.reaching(e.id, node_id)
+            if len(defs) == 1 and defs[0][0] != "ENTRY" and isinstance(defs[0][1], ast.AST) and defs[0][2] not in ("aug",):
+                v = defs[0][1]
+                if not any(isinstance(x, (ast.Call, ast.Await, ast.Yield, ast.YieldFrom, ast.NamedExpr, ast.Lambda)) for x in ast.walk(v)) \
+                        and isinstance(v, ast.expr) and not clobbered(defs[0][0], v):
+                    return rec(v, defs[0][0], d - 1)
+            return e
+        if isinstance(e, ast.AST):
+            new = type(e)()
+            for f, val in ast.iter_fields(e):
+                if isinstance(val, list):
+                    setattr(new, f, [rec(x, node_id, d) if isinstance(x, ast.AST) else x for x in val])
+                elif isinstance(val, ast.AST):
+                    setattr(new, f, rec(val, node_id, d))
+                else:
+                    setattr(new, f, val)
+            return new
+        return e
+    out = rec(expr, at_id, depth)
+    ast.fix_missing_locations(out) if hasattr(out, "lineno") or True else None
+    try:
+        return ast.parse(ast.unparse(out), mode="eval").body
+    except Exception:
+        return expr
+
+
+def sym_text(fi, expr, at, depth=6):
+    return ast.unparse(sym_expr(fi, expr, at, depth))
